@@ -6,7 +6,7 @@ export GOFLAGS=-mod=mod GOPROXY=off GOSUMDB=off GOTOOLCHAIN=local
 mkdir -p .work evidence replays
 # 1. facts from the current tree, 2. whole Lean project (model, proofs, driver)
 (cd harness && go1.26 run ./cmd/factgen /repo /verif/lean/LncModel/Facts/Generated.lean)
-(cd lean && lake build LncModel lncmodel)
+(cd lean && lake build LncModel lncmodel $(ls LncModel/Props/*.lean LncModel/Inst/*.lean | sed "s#/#.#g; s#\.lean\$##"))
 # 3. warm the Go build cache for the harness (plain and -race)
 (cd harness && go1.26 test -tags "verif rpctest" -count=1 -run '^$' . >/dev/null)
 (cd harness && go1.26 test -race -tags "verif rpctest" -count=1 -run '^$' . >/dev/null)
